@@ -112,32 +112,38 @@ def _p2g(ctx, mode):
 
 def _g2p(ctx, mode, power_led):
     ctx.assume("A1", "A4", "A6")
-    ia, ib, n = indices(mode)       # ia: power element, ib: gas sink
-    eta, hhv = z3.Real("efficiency"), z3.Real("hhv")
-    attrs = lambda: {"elm_idx_power": ia, "elm_idx_gas": ib, "elm_type_power": "sgen",
-                     "name_net_power": "power", "name_net_gas": "gas", "efficiency": eta,
-                     "fluid_calorific_value": hhv, "el_power_led": power_led, "applied": False}
-    mkw = lambda: world({"sgen": ["p_mw", "scaling"]}, {"sink": ["mdot_kg_per_s", "scaling"]})
-    paths = run_step(ctx, "G2PControlMultiEnergy", attrs, mkw)
-    w0 = mkw()
-    sgen = w0.items["nets"]["power"].items["sgen"]
-    sink = w0.items["nets"]["gas"].items["sink"]
-    if power_led:
-        def exp(j):
-            lab = ia if j is None else ia.f(j)
-            return sgen.col0("p_mw")(lab) * sgen.col0("scaling")(lab) / ((hhv * 3600 / 1000) * eta)
-        check_written(ctx, "g2p-power-led/" + mode, paths, mode,
-                      lambda w: w.items["nets"]["gas"].items["sink"], "mdot_kg_per_s", ib, n, exp,
-                      ["scaling"], [("power.sgen", lambda w: w.items["nets"]["power"].items["sgen"])],
-                      [hhv > 0, eta > 0])
-    else:
-        def exp(j):
-            lab = ib if j is None else ib.f(j)
-            return sink.col0("mdot_kg_per_s")(lab) * sink.col0("scaling")(lab) * (hhv * 3600 / 1000) * eta
-        check_written(ctx, "g2p/" + mode, paths, mode,
-                      lambda w: w.items["nets"]["power"].items["sgen"], "p_mw", ia, n, exp,
-                      ["scaling"], [("gas.sink", lambda w: w.items["nets"]["gas"].items["sink"])],
-                      [hhv > 0])
+    # the power element may live in ANY power table (sgen or gen): the table named by elm_type_power is read / written,
+    # the other one is never touched although it has the same index labels
+    for etype, other in (("sgen", "gen"), ("gen", "sgen")):
+        ia, ib, n = indices(mode)       # ia: power element, ib: gas sink
+        eta, hhv = z3.Real("efficiency"), z3.Real("hhv")
+        attrs = lambda _e=etype: {"elm_idx_power": ia, "elm_idx_gas": ib, "elm_type_power": _e,
+                                  "name_net_power": "power", "name_net_gas": "gas", "efficiency": eta,
+                                  "fluid_calorific_value": hhv, "el_power_led": power_led, "applied": False}
+        mkw = lambda: world({"sgen": ["p_mw", "scaling"], "gen": ["p_mw", "scaling"]}, {"sink": ["mdot_kg_per_s", "scaling"]})
+        paths = run_step(ctx, "G2PControlMultiEnergy", attrs, mkw)
+        w0 = mkw()
+        pel = w0.items["nets"]["power"].items[etype]
+        sink = w0.items["nets"]["gas"].items["sink"]
+        tag = "" if etype == "sgen" else "/gen"
+        if power_led:
+            def exp(j, _pel=pel):
+                lab = ia if j is None else ia.f(j)
+                return _pel.col0("p_mw")(lab) * _pel.col0("scaling")(lab) / ((hhv * 3600 / 1000) * eta)
+            check_written(ctx, "g2p-power-led/" + mode + tag, paths, mode,
+                          lambda w: w.items["nets"]["gas"].items["sink"], "mdot_kg_per_s", ib, n, exp,
+                          ["scaling"], [("power." + etype, lambda w, _e=etype: w.items["nets"]["power"].items[_e]),
+                                        ("power." + other, lambda w, _o=other: w.items["nets"]["power"].items[_o])],
+                          [hhv > 0, eta > 0])
+        else:
+            def exp(j):
+                lab = ib if j is None else ib.f(j)
+                return sink.col0("mdot_kg_per_s")(lab) * sink.col0("scaling")(lab) * (hhv * 3600 / 1000) * eta
+            check_written(ctx, "g2p/" + mode + tag, paths, mode,
+                          lambda w, _e=etype: w.items["nets"]["power"].items[_e], "p_mw", ia, n, exp,
+                          ["scaling"], [("gas.sink", lambda w: w.items["nets"]["gas"].items["sink"]),
+                                        ("power." + other, lambda w, _o=other: w.items["nets"]["power"].items[_o])],
+                          [hhv > 0])
 
 
 def _g2g(ctx, mode):
